@@ -984,7 +984,10 @@ def tie_checkpaths(ctx, mode, model_ok):
             layout = ["plain", "single", "inner-same-name-dir", "inner-same-name-file", "parent-same-name", "single"][i % 6]
             pl = rng.choice([16384, 32768])
             if layout == "single":
-                sc = Scenario(base, rng, pl=pl, tree={(): rng.randbytes(rng.choice([pl * 3 + 5, 2 * pl, 4 * pl + 1, 7]))})
+                # (the first single-file layout of every six always has >= 3 pieces, so that its truncation on a piece
+                # boundary leaves two or more whole verifying pieces on disk: a length taken from the disk then reports 100)
+                pool = [pl * 3 + 5, 4 * pl + 1, 5 * pl, 3 * pl] if i % 6 == 1 else [pl * 3 + 5, 2 * pl, 4 * pl + 1, 7]
+                sc = Scenario(base, rng, pl=pl, tree={(): rng.randbytes(rng.choice(pool))})
             elif layout == "plain":
                 sc = Scenario(base, rng, pl=pl)
             elif layout == "parent-same-name":
@@ -1310,6 +1313,9 @@ def aimed_layout_list(mode):
         for pl in (32768, 16384):
             for sizes, desc in absent_empty_cases(pl):
                 out.append(("absent empty file (not the first) before the damage", pl, sizes, False, desc, V2_KINDS + ["v1", "ref-v1"]))
+        for pl, n in ((32768, 3 * 32768 + 5), (16384, 4 * 16384)):
+            out.append(("single file truncated on a piece boundary, whole pieces left", pl, [n], True, [("trunc", 0, 2 * pl)],
+                        V2_KINDS + ["v1", "ref-v1"]))
     bc = "3/5/6/7 blocks below one piece or in the last piece (pl 64/128 KiB)"
     for pl, sizes in ((P128, [2 * B + 1, 3 * B - 1, 3 * B, 4 * B + 1, 5 * B - 1, 5 * B]),
                       (P128, [5 * B + 1, 6 * B - 1, 6 * B, 6 * B + 1, 7 * B - 1, 7 * B]),
@@ -1485,6 +1491,7 @@ def replay(ctx, mode, data):
         print(data)
         return 0
     rc = 0
+    reuse, seq_states = inp.get("reuse"), None
     with core.Scratch("vrcr_") as tmp:
         os.environ["HOME"] = tmp
         if inp["scope"] == "small-v1":
@@ -1512,20 +1519,56 @@ def replay(ctx, mode, data):
             meta = decode_meta(raw)
             impl = impl_run(mf, root)
             ref = oracle.verify(meta, root)
+        elif "tie_seed" in inp:
+            print("model-tie case: rebuilt from tie_seed")
+            sc, kind, state, desc = tie_case(os.path.join(tmp, "g"), inp["tie_seed"], inp["tie_mode"], inp["tie_pl"], inp["tie_sizes"],
+                                             inp["tie_kind"], inp["tie_damage"], inp["tie_v1side"])
+            print("damage:", desc)
+            sc.set_state(state)
+            mf, meta = sc.metas[kind]
+            impl = impl_run(mf, sc.root)
+            ref = reference(meta, sc.root)
+        elif inp["scope"] == "aimed-layout":
+            sc = layout_scenario(os.path.join(tmp, "al"), inp["content_seed"], inp["piece_length"], inp["sizes"], inp["single"],
+                                 [inp["metafile"]])
+            seq_states = [apply_desc(sc.files, d) for d in (reuse or {}).get("earlier_states", [])] + [apply_desc(sc.files, inp["damage"])]
+            sc.set_state(seq_states[-1])
+            mf, meta = sc.metas[inp["metafile"]]
+            impl = impl_run(mf, sc.root)
+            ref = reference(meta, sc.root)
         else:
             rng = random.Random(inp.get("case_seed", 0))
             print("generated scenario: re-derived from case_seed (tree, metafile kinds and damage sets are functions of it)")
             sc = Scenario(os.path.join(tmp, "e"), rng, kinds=[inp["metafile"]])
-            sets = [([d for _, d in sc.files], [])] if mode in ("C05", "C16") else []
+            intact = [d for _, d in sc.files]
+            sets = [(intact, [])] if mode in ("C05", "C16") else []
             if mode != "C05":
                 for _ in range(8):
                     sets.append(gen_damage_set(rng, sc.files, sc.pl, rng.randrange(1, 5), sc.single))
-            state, desc = sets[min(inp.get("set_index", 0), len(sets) - 1)]
+            k = min(inp.get("set_index", 0), len(sets) - 1)
+            state, desc = sets[k]
             print("damage:", desc, "(recorded:", inp.get("damage"), ")")
+            if mode == "C04":
+                seq_states = [intact] + [st for st, _ in sets[:k + 1]]
+            else:
+                seq_states = [reuse_damage(inp.get("case_seed", 0), sc)[0], intact]
             sc.set_state(state)
             mf, meta = sc.metas[inp["metafile"]]
             impl = impl_run(mf, sc.root)
             ref = reference(meta, sc.root)
+        if reuse and seq_states and "error" not in impl:
+            # the SAME Checker object through the recorded sequence of disk states
+            sc.set_state(seq_states[0])
+            chk = new_checker(mf, sc.root)
+            answers = []
+            for st, via in zip(seq_states, reuse["asks"]):
+                sc.set_state(st)
+                answers.append((via, ask(chk, via)))
+            print("one Checker object, asked after each change of the disk:", answers)
+            print("a fresh Checker on the final state:", impl["result"])
+            impl = dict(impl, result=answers[-1][1])
+            if not is_pct(impl["result"]):
+                impl = {"error": impl["result"]}
         print("implementation:", {k: (v if k != "trace" else [(a == b, s) for a, b, s in v][:40]) for k, v in impl.items() if k != "pieces"})
         print("reference     : matched/total =", ref[0], "/", ref[1], "->", ratio(ref[0], ref[1]), "verdicts", ref[2][:40])
         if "error" in impl:
